@@ -66,8 +66,8 @@ def router_check(pid, tier):
         "traces_validated_against_impl": sum(r["runs"] for r in results),
         "events_validated": sum(r["events"] for r in results),
         "exhaustive": True,
-        "models": [{k: r["model"][k] for k in ("module", "cfg", "states", "transitions", "depth", "wall_s",
-                                                "action_coverage", "actions_never_taken")} for r in results],
+        "models": [{k: m[k] for k in ("module", "cfg", "states", "transitions", "depth", "wall_s",
+                                       "action_coverage", "actions_never_taken")} for r in results for m in r["models"]],
         "schedules": {r["kind"]: r["schedules"] for r in results},
         "runs_flagged_for_this_property": len(viols),
         "runs_flagged_any_property": sum(r["n_viol"] for r in results),
